@@ -166,6 +166,23 @@ Definition c04_hist_check (c : hist_case) : issues :=
   ++ spec_if (nodup_pairs (reward_claims steps))
              "the dispute account paid the voter reward of one dispute twice to the same account (credits exceed what was paid in)".
 
+(* ---- C09 on histories: time based rewards are used up whenever an eligible aggregate is made ------------ *)
+(* EndBlock carries [number of bridge-deposit aggregates made in the block; number of all aggregates made] *)
+Definition c09_hist_step (before : snap) (s : hstep) : issues :=
+  if (st_op s =? "EndBlock")%string && (st_result s =? 0) then
+    match st_params s with
+    | [n_deposit; n_all] =>
+        spec_if ((n_deposit =? 0) || (sp_tbr (st_after s) =? 0))
+                "a bridge-deposit aggregate was made but the time based rewards pool was not paid out in that block"
+        ++ spec_if ((0 <? n_all) || (sp_tbr (st_after s) =? sp_tbr before))
+                   "time based rewards left the reward pool in a block that made no aggregate"
+    | _ => []
+    end
+  else [].
+
+Definition c09_hist_check (c : hist_case) : issues :=
+  let 'Hist init steps := c in walk c09_hist_step init steps.
+
 (* ---- C05: staking pools back the staking ledger (after every operation) ---------------------- *)
 Definition c05_inv (s : snap) : issues :=
   spec_if (sp_bonded_ledger s <=? sp_bonded s) "bonded pool holds less than the bonded validators' tokens"
